@@ -11,3 +11,9 @@ chk("C06", "exploration",
     "Every arithmetic/bitwise/shift/comparison/conversion operator of every numeric type is evaluated on all 8-bit operand pairs and on the full cross product of a boundary grid (about 100 values per wider type), in variable/constant/folded/nested/assignment shapes; each row digest must equal the native toolchain's. Exhaustive for the stated grids, which are chosen from the branch conditions in the translator and numeric.js.",
     "Trusted: go1.23.5 native arithmetic as the reference; the digest (two 32-bit lanes) collides with probability ~2^-64 per row. Values outside the grids of >8-bit types are not explored.",
     "DESIGN.md section 3 C06", "differential harness")
+
+chk("C03", "model_checking",
+    "explicit-state BFS of a Go channel/select/scheduler model + stateless DFS of the real runtime over select-pick/time-slice/timer-order choices (deviation-bounded); every implementation trace must be a model trace",
+    "For every scenario of a bounded alphabet (2-4 goroutines, <=2-3 straight-line ops each from send/recv/recv-ok/close/range/len/select(+default)/Gosched/Goexit/NumGoroutine on 1-2 channels that are nil or of capacity 0..2, with and without recover, with and without an exported Go function) the model's complete state space is enumerated and the compiled interpreter program is run under every resolution of the runtime's own nondeterminism up to the deviation bound (2 quick / 3 thorough); each observed global log order + end (exit, reported deadlock, silent stuck, panic) must be one the model allows, so lost wake-ups, wrong wake targets, spurious or missing deadlock reports, lost/duplicated/reordered values are all violations.",
+    "Trusted: js/chanmodel.js as the transcription of Go's channel semantics (validated the other way round by replaying every implementation trace through it); partner choice among parked goroutines and ready-case choice are left unconstrained as the language does. One vm context is reused across executions of a shard (violations are re-run twice in fresh contexts before being reported).",
+    "DESIGN.md section 3 C03", "E3 controlled JS executor / stateless explorer")
